@@ -31,7 +31,14 @@ extern const struct hashfn *__CPROVER_file_local_crypt_c_get_hashfn(const char *
    them in one 32 KB struct makes CBMC lower every byte write over the whole
    struct (11M clauses, and a 23000-frame recursion crash with the real type). */
 static char vf_output[CRYPT_OUTPUT_SIZE], vf_output0[CRYPT_OUTPUT_SIZE];
-static _Alignas(16) unsigned char vf_scratch[ALG_SPECIFIC_SIZE];
+#ifndef SCR_SIZE
+#define SCR_SIZE ALG_SPECIFIC_SIZE
+#endif
+/* SCR_SIZE < ALG_SPECIFIC_SIZE only for the yescrypt family (whose wrappers do
+   symbolic-length copies inside the scratch object: 8 KB made each of them a
+   whole-object update); it is still larger than the method's own scratch struct,
+   which is all the method compares it with */
+static _Alignas(16) unsigned char vf_scratch[SCR_SIZE];
 
 size_t in_plen, in_slen;
 char in_phrase[MAX_P + 1];
